@@ -513,6 +513,12 @@ class Sem:
             return ("int", e.info[1])
         if op == "adt" and e.info[1]:
             return ("enum", e.info[1], tuple(self.aval(a, env, depth + 1) for a in e.args), e.info[0])
+        if op == "adt" and e.args:
+            # a struct literal some of whose fields are constants (`BurnReceipt { token: UnbondType::StSei, .. }` handed to a helper)
+            pl = tuple(self.aval(a, env, depth + 1) for a in e.args)
+            if any(x is not None for x in pl):
+                return ("enum", e.info[0].rsplit("::", 1)[-1], pl, e.info[0])
+            return None
         if op == "discr":
             v = self.aval(e.args[0], env, depth + 1)
             if v and v[0] == "enum":
